@@ -255,8 +255,10 @@ def parse (s : List Char) : Option UInt64 :=
             | t => (false, t)
           let (ed, r'') := takeDigits r'
           if ed.isEmpty then none else
-          -- clamp huge exponents: anything beyond ±100000 behaves the same
-          let ev := if ed.length > 7 then 10000000 else digitsToNat ed
+          -- clamp huge exponents: anything beyond ±100000 behaves the same (leading zeros of
+          -- the exponent do not count: `1e0000000001` is 10)
+          let edSig := ed.dropWhile (· == '0')
+          let ev := if edSig.length > 7 then 10000000 else digitsToNat edSig
           some ((if eneg then -(ev : Int) else (ev : Int)), r'')
         else some (0, c :: r)
       | [] => some (0, [])
@@ -268,10 +270,13 @@ def parse (s : List Char) : Option UInt64 :=
       let mant := digitsToNat digs
       let e10 : Int := ex - (fp.length : Int)
       if mant == 0 then some (if neg then signBit else 0) else
-      -- magnitude ≈ 10^(digs.length + e10): clamp far-away cases
-      let mag : Int := (digs.length : Int) + e10
-      if mag > 330 then some (if neg then negInfBits else posInfBits)
-      else if mag < -400 then some (if neg then signBit else 0)
+      -- magnitude: 10^(sig - 1 + e10) ≤ value < 10^(sig + e10) ≤ 10^(len + e10), where `sig`
+      -- counts the digits from the first non-zero one and `len` all of them; clamp far-away
+      -- cases (everything in between is computed exactly)
+      let magHi : Int := ((digs.dropWhile (· == '0')).length : Int) + e10
+      let magLo : Int := (digs.length : Int) + e10
+      if magHi > 330 then some (if neg then negInfBits else posInfBits)
+      else if magLo < -400 then some (if neg then signBit else 0)
       else if e10 ≥ 0 then some (ofRat neg (mant * 10 ^ e10.toNat) 1)
       else some (ofRat neg mant (10 ^ (-e10).toNat))
 
